@@ -153,8 +153,9 @@ def _run(scn, cfg):
         return 200, 'OK', dict(tp['headers']), body
     _reset_logging()
     kw = {'use_pull_operations': True} if op.startswith('Iter') else {}
+    # with a prior operation, statistics are switched on only after it (enable() at run time)
     conn, _ = transport.connect(handler, default_namespace='root/cimv2', creds=(USER, PASSWORD),
-                                stats_enabled=bool(cfg and cfg['stats']), **kw)
+                                stats_enabled=bool(cfg and cfg['stats']) and not prior, **kw)
     text = []
     cap = None
     recorder_out = None
@@ -197,7 +198,7 @@ def _run(scn, cfg):
         if prior:
             R._call(conn, PRIOR[0], tps[PRIOR]['args'])
             if cfg and cfg['stats']:
-                conn.statistics.reset()
+                conn.statistics.enable()
         try:
             r = R._call(conn, op, tp['args'])
             outcome = ['ok', _dump_result(r)]
